@@ -2,24 +2,45 @@ package main
 
 // C14 — ring-SIS: RSis.Hash against the schoolbook specification Σ Aᵢ·mᵢ mod (X^d+1).
 
+//
+//	C14 sis|sism <pkg> <seed> <logDeg> <logBound> <maxNb> <A> <v…> …       every input hashed into a fresh (zero) output vector
+//	C14 sisd     <pkg> <seed> <logDeg> <logBound> <maxNb> <A> <v>[/g|/f] …  every input hashed into ONE output vector that is
+//	             never cleared by the caller: it starts as garbage and then holds the previous digest (the BenchmarkSIS
+//	             pattern); `/g`: the caller first fills it with non-zero canonical elements, `/f`: with all-ones limbs
+//	             (not even a reduced element). The answer is the content of the output vector after the call, as for `sis`.
+
 import (
 	"fmt"
 	"math/big"
+	"os"
+	"reflect"
 	"strings"
 )
 
 type sisPkg struct {
-	name, field string
-	// key polynomials (rows ';'), hash closure on big.Int vectors
-	open func(seed int64, ld, lb, mx int) (a string, hash func(v []*big.Int) ([]*big.Int, error), err error)
+	name, field, dir string
+	// key polynomials (rows ';'), hash closure on big.Int vectors (fresh output vector per call), hash closure into the one
+	// dirty output vector of this instance (fill: "" = leave as it is, "g", "f")
+	open func(seed int64, ld, lb, mx int) (a string, hash func(v []*big.Int) ([]*big.Int, error),
+		hashDirty func(v []*big.Int, fill string) ([]*big.Int, error), err error)
 }
 
-func mkSis[T any, PT p2Elem[T]](name, field string, newR func(seed int64, ld, lb, mx int) ([][]T, func(v, res []T) error, int, error)) sisPkg {
-	return sisPkg{name: name, field: field,
-		open: func(seed int64, ld, lb, mx int) (string, func(v []*big.Int) ([]*big.Int, error), error) {
+// all-ones limbs: not a reduced Montgomery representation of anything
+func sisFillOnes[T any](res []T) {
+	for i := range res {
+		a := reflect.ValueOf(&res[i]).Elem()
+		for j := 0; j < a.Len(); j++ {
+			a.Index(j).SetUint(^uint64(0) >> (64 - uint(a.Index(j).Type().Bits())))
+		}
+	}
+}
+
+func mkSis[T any, PT p2Elem[T]](name, field, dir string, newR func(seed int64, ld, lb, mx int) ([][]T, func(v, res []T) error, int, error)) sisPkg {
+	return sisPkg{name: name, field: field, dir: dir,
+		open: func(seed int64, ld, lb, mx int) (string, func(v []*big.Int) ([]*big.Int, error), func(v []*big.Int, fill string) ([]*big.Int, error), error) {
 			A, hash, degree, err := newR(seed, ld, lb, mx)
 			if err != nil {
-				return "", nil, err
+				return "", nil, nil, err
 			}
 			rows := make([]string, len(A))
 			for i, row := range A {
@@ -35,22 +56,49 @@ func mkSis[T any, PT p2Elem[T]](name, field string, newR func(seed int64, ld, lb
 			if len(rows) > 0 {
 				as = strings.Join(rows, ";")
 			}
-			return as, func(v []*big.Int) ([]*big.Int, error) {
+			toT := func(v []*big.Int) []T {
 				in := make([]T, len(v))
 				for i := range v {
 					PT(&in[i]).SetBigInt(v[i])
 				}
-				res := make([]T, degree)
-				if err := hash(in, res); err != nil {
-					return nil, err
-				}
-				out := make([]*big.Int, degree)
+				return in
+			}
+			show := func(res []T) []*big.Int {
+				out := make([]*big.Int, len(res))
 				for i := range res {
 					out[i] = new(big.Int)
 					PT(&res[i]).BigInt(out[i])
 				}
-				return out, nil
-			}, nil
+				return out
+			}
+			// the caller's long-lived digest buffer: garbage before the first call, then whatever the last call left in it
+			dirty := make([]T, degree)
+			calls := uint64(0)
+			garbage := func() {
+				calls++
+				for i := range dirty {
+					PT(&dirty[i]).SetBigInt(new(big.Int).SetUint64(0x9e3779b97f4a7c15*(uint64(i)+calls) | 1))
+				}
+			}
+			garbage()
+			return as, func(v []*big.Int) ([]*big.Int, error) {
+					res := make([]T, degree)
+					if err := hash(toT(v), res); err != nil {
+						return nil, err
+					}
+					return show(res), nil
+				}, func(v []*big.Int, fill string) ([]*big.Int, error) {
+					switch fill {
+					case "g":
+						garbage()
+					case "f":
+						sisFillOnes(dirty)
+					}
+					if err := hash(toT(v), dirty); err != nil {
+						return nil, err
+					}
+					return show(dirty), nil
+				}, nil
 		}}
 }
 
@@ -63,7 +111,7 @@ func sisByName(n string) *sisPkg {
 	return nil
 }
 
-// sis|sism <pkg> <seed> <logDeg> <logBound> <maxNb> <A> <v…> …
+// sis|sism|sisd <pkg> <seed> <logDeg> <logBound> <maxNb> <A> <v…> …
 func execSis(kind string, a []string) string {
 	if len(a) < 6 {
 		return "bad-op"
@@ -74,7 +122,7 @@ func execSis(kind string, a []string) string {
 	}
 	f := fields[p.field]
 	seed, ld, lb, mx := int64(c14Hex(a[1])), c14Hex(a[2]), c14Hex(a[3]), c14Hex(a[4])
-	as, hash, err := p.open(seed, ld, lb, mx)
+	as, hash, hashDirty, err := p.open(seed, ld, lb, mx)
 	if err != nil {
 		return "err:new"
 	}
@@ -85,7 +133,20 @@ func execSis(kind string, a []string) string {
 	outs := make([]string, len(a)-6)
 	for i, tok := range a[6:] {
 		outs[i] = c14Guard(func() string {
-			h, err := hash(c14ParseBigs(tok))
+			var h []*big.Int
+			var err error
+			if kind == "sisd" {
+				fill := ""
+				if k := strings.IndexByte(tok, '/'); k >= 0 {
+					tok, fill = tok[:k], tok[k+1:]
+				}
+				if fill != "" && fill != "g" && fill != "f" {
+					return "bad-op"
+				}
+				h, err = hashDirty(c14ParseBigs(tok), fill)
+			} else {
+				h, err = hash(c14ParseBigs(tok))
+			}
 			if err != nil {
 				return "err"
 			}
@@ -100,8 +161,91 @@ func execSis(kind string, a []string) string {
 	return join(outs)
 }
 
+// clear the limbs of chunk c (limbs [c·d, (c+1)·d) of the little-endian limb stream, L limbs of lb bits per element)
+func sisZeroChunk(v []*big.Int, c, d, L, lb int) []*big.Int {
+	out := make([]*big.Int, len(v))
+	for i := range v {
+		out[i] = new(big.Int).Set(v[i])
+	}
+	for t := c * d; t < (c+1)*d && t < len(v)*L; t++ {
+		e, j := t/L, t%L
+		for b := j * lb; b < (j+1)*lb; b++ {
+			out[e].SetBit(out[e], b, 0)
+		}
+	}
+	return out
+}
+
+// the zero-chunk / dirty-destination message lattice of one parameter set: the empty message, all-zero messages, messages
+// shorter than one chunk, full and partial messages whose first / middle / last chunk of `d` limbs is all zero, messages with
+// only one non-zero chunk, messages ending exactly on a chunk boundary
+func sisDirtyTokens(g *gen, q *big.Int, ld, lb, mx, ebytes int) []string {
+	L, d := ebytes*8/lb, 1<<ld
+	rnd := func(n int) []*big.Int {
+		v := make([]*big.Int, n)
+		for i := range v {
+			v[i] = g.rng.bigBelow(q)
+		}
+		return v
+	}
+	zeros := func(n int) []*big.Int {
+		v := make([]*big.Int, n)
+		for i := range v {
+			v[i] = big.NewInt(0)
+		}
+		return v
+	}
+	var special [][]*big.Int
+	special = append(special, nil, zeros(1), zeros(mx))
+	ns := []int{mx}
+	if mx > 1 {
+		ns = append(ns, 1+g.rng.intn(mx-1))
+	}
+	if k := d / L; k >= 1 && k <= mx { // ends exactly on the first chunk boundary
+		ns = append(ns, k)
+	}
+	for _, n := range ns {
+		chunks := (n*L + d - 1) / d
+		cs := map[int]bool{0: true, chunks / 2: true, chunks - 1: true}
+		for c := 0; c < chunks; c++ {
+			if !cs[c] {
+				continue
+			}
+			special = append(special, sisZeroChunk(rnd(n), c, d, L, lb))
+			// only chunk c is non-zero
+			v := rnd(n)
+			for o := 0; o < chunks; o++ {
+				if o != c {
+					v = sisZeroChunk(v, o, d, L, lb)
+				}
+			}
+			special = append(special, v)
+		}
+	}
+	if d > L { // shorter than one chunk
+		special = append(special, rnd(1+g.rng.intn(min(mx, (d-1)/L))))
+	}
+	var toks []string
+	for i, m := range special {
+		// into fresh garbage (alternating the two kinds), and into the digest left by the previous, unrelated, message
+		toks = append(toks, c14ShowBigs(m)+[]string{"/g", "/f"}[i%2])
+		toks = append(toks, c14ShowBigs(rnd(mx)), c14ShowBigs(m))
+	}
+	// an over-long message must leave an error, not a digest; the next call starts from whatever is in the vector
+	toks = append(toks, c14ShowBigs(rnd(mx+1)), c14ShowBigs(special[len(special)-1]))
+	return toks
+}
+
 func genSis(g *gen) {
 	type ps struct{ ld, lb, mx int }
+	known := map[string]bool{}
+	for _, p := range sisPkgs {
+		known[p.dir] = true
+	}
+	for _, d := range missingAdapters(known, "ecc/*/fr/sis", "field/*/sis") {
+		fmt.Fprintf(os.Stderr, "c14: ring-SIS package %s has no adapter in tools/harness/c14_sis_gen.go\n", d)
+		g.emit("C14 siscover %s", d)
+	}
 	for pi := range sisPkgs {
 		p := &sisPkgs[pi]
 		f := fields[p.field]
@@ -125,8 +269,12 @@ func genSis(g *gen) {
 		}
 		if g.thorough() {
 			sets = append(sets, ps{9, 16, 64}, ps{9, 8, 40}, ps{7, 16, 100})
-		} else if p.name == "koalabear" {
-			sets = append(sets, ps{9, 16, 8})
+			if p.name == "koalabear" || p.name == "babybear" {
+				sets = append(sets, ps{9, 16, 520})
+			}
+		} else if p.name == "koalabear" || p.name == "babybear" {
+			// degree 512, bound 16: the AVX-512 path of the two 31-bit fields; 520 elements = three blocks of 256
+			sets = append(sets, ps{9, 16, 8}, ps{9, 16, 520})
 		}
 		seen := map[ps]bool{}
 		for _, s := range sets {
@@ -135,7 +283,7 @@ func genSis(g *gen) {
 			}
 			seen[s] = true
 			seed := int64(g.rng.intn(1000))
-			as, _, err := p.open(seed, s.ld, s.lb, s.mx)
+			as, _, _, err := p.open(seed, s.ld, s.lb, s.mx)
 			if err != nil {
 				continue
 			}
@@ -157,6 +305,7 @@ func genSis(g *gen) {
 			for _, kind := range []string{"sis", "sism"} {
 				g.emit("C14 %s %s %x %x %x %x %s %s", kind, p.name, seed, s.ld, s.lb, s.mx, as, join(toks))
 			}
+			g.emit("C14 sisd %s %x %x %x %x %s %s", p.name, seed, s.ld, s.lb, s.mx, as, join(sisDirtyTokens(g, q, s.ld, s.lb, s.mx, f.Bytes())))
 		}
 		// refused parameter sets
 		for _, s := range []ps{{2, 0, 4}, {2, 12, 4}, {2, 72, 4}, {2, f.Bytes()*8 + 8, 4}, {2, 24, 4}, {60, 8, 1}} {
